@@ -189,6 +189,9 @@ func (e *Engine) findPred(pkg *packages.Package, name string) *Contract {
 }
 
 func (e *Engine) findLemma(pkg *packages.Package, name string) *Contract {
+	if j := strings.LastIndex(name, "."); j >= 0 {
+		name = name[j+1:]
+	}
 	if pkg != nil {
 		if c, ok := e.lemmas[pkg.PkgPath+"::"+name]; ok {
 			return c
